@@ -246,3 +246,61 @@ def conditional_expressions_as_branches(funcnode):
         return funcnode
     ast.fix_missing_locations(new)
     return new
+
+
+def append_loops_as_comprehensions(funcnode):
+    """A copy of the function in which
+
+        X = []                      X = [E for v in S]
+        for v in S:          ==>
+            X.append(E)
+
+    (and the same with `if C: X.append(E)` as the only statement of the body: `[E for v in S if C]`) - the two statements
+    directly after one another, the loop without else, X not read in S, E or C.  Returns funcnode itself when there is
+    nothing to rewrite.  A rule that asks how a sequence is built from another one then sees the comprehension whether it
+    was written as one or as the loop that fills a list."""
+    new = copy.deepcopy(funcnode)
+    count = [0]
+
+    def mentions(e, name):
+        return any(isinstance(x, ast.Name) and x.id == name for x in ast.walk(e))
+
+    def block(stmts):
+        out = []
+        i = 0
+        while i < len(stmts):
+            s = stmts[i]
+            if not isinstance(s, (ast.FunctionDef, ast.AsyncFunctionDef, ast.ClassDef)):
+                for fld in ('body', 'orelse', 'finalbody'):
+                    sub = getattr(s, fld, None)
+                    if isinstance(sub, list) and sub and isinstance(sub[0], ast.stmt):
+                        setattr(s, fld, block(sub))
+                for h in getattr(s, 'handlers', []) or []:
+                    h.body = block(h.body)
+            nxt = stmts[i + 1] if i + 1 < len(stmts) else None
+            empty = isinstance(s, ast.Assign) and len(s.targets) == 1 and isinstance(s.targets[0], ast.Name) and (
+                (isinstance(s.value, ast.List) and not s.value.elts) or
+                (isinstance(s.value, ast.Call) and isinstance(s.value.func, ast.Name) and s.value.func.id == 'list' and not s.value.args))
+            if empty and isinstance(nxt, ast.For) and not nxt.orelse and len(nxt.body) == 1:
+                x = s.targets[0].id
+                b = nxt.body[0]
+                cond = None
+                if isinstance(b, ast.If) and not b.orelse and len(b.body) == 1:
+                    cond, b = b.test, b.body[0]
+                if isinstance(b, ast.Expr) and isinstance(b.value, ast.Call) and isinstance(b.value.func, ast.Attribute) and b.value.func.attr == 'append' and \
+                        isinstance(b.value.func.value, ast.Name) and b.value.func.value.id == x and len(b.value.args) == 1 and not b.value.keywords:
+                    e = b.value.args[0]
+                    if not mentions(nxt.iter, x) and not mentions(e, x) and (cond is None or not mentions(cond, x)):
+                        comp = ast.ListComp(elt=e, generators=[ast.comprehension(target=nxt.target, iter=nxt.iter, ifs=[cond] if cond is not None else [], is_async=0)])
+                        out.append(ast.copy_location(ast.Assign(targets=[ast.Name(id=x, ctx=ast.Store())], value=ast.copy_location(comp, nxt)), nxt))
+                        count[0] += 1
+                        i += 2
+                        continue
+            out.append(s)
+            i += 1
+        return out
+    new.body = block(new.body)
+    if not count[0]:
+        return funcnode
+    ast.fix_missing_locations(new)
+    return new
